@@ -502,4 +502,110 @@ func NewSorted
   ensures[len]    len(result.slice) == len(values)
   ensures[perm]   (forall i :: 0 <= i && i < len(values) ==> 0 <= sortperm[i] && sortperm[i] < len(values) && result.slice[i] == values[sortperm[i]]) && (forall i, j :: 0 <= i && i < j && j < len(values) ==> sortperm[i] != sortperm[j])
   ensures[fresh]  fresh(result.slice)
+
+// ---------------------------------------------------------------- C15
+// Adapters: proved from the code. `opt sortdata` names the memory Swap permutes (used by the assumed sort contract).
+
+func sortOrdered.Len
+  property C15
+  ensures result == len(s)
+
+func sortOrdered.Swap
+  property C15
+  opt sortdata s
+  requires 0 <= i && i < len(s) && 0 <= j && j < len(s)
+  ensures[swap]   s[i] == old(s[j]) && s[j] == old(s[i])
+  ensures[others] forall k :: 0 <= k && k < len(s) && k != i && k != j ==> s[k] == old(s[k])
+  assigns elems(s)
+
+func sortOrdered.Less
+  property C15
+  requires 0 <= i && i < len(s) && 0 <= j && j < len(s)
+  ensures result == (s[i] < s[j])
+
+func sortLess.Len
+  property C15
+  ensures result == len(s.slice)
+
+func sortLess.Swap
+  property C15
+  opt sortdata s.slice
+  requires 0 <= i && i < len(s.slice) && 0 <= j && j < len(s.slice)
+  ensures[swap]   s.slice[i] == old(s.slice[j]) && s.slice[j] == old(s.slice[i])
+  ensures[others] forall k :: 0 <= k && k < len(s.slice) && k != i && k != j ==> s.slice[k] == old(s.slice[k])
+  assigns elems(s.slice)
+
+func sortLess.Less
+  property C15
+  requires s.less != nil && 0 <= i && i < len(s.slice) && 0 <= j && j < len(s.slice)
+  ensures result == apply(s.less, s.slice[i], s.slice[j])
+
+// sortperm is the ghost permutation the assumed sort contract exposes: new[i] == old[sortperm[i]]
+spec isperm(s []E) bool = (forall i :: 0 <= i && i < len(s) ==> 0 <= sortperm[i] && sortperm[i] < len(s) && s[i] == old(s[sortperm[i]])) && (forall i, j :: 0 <= i && i < j && j < len(s) ==> sortperm[i] != sortperm[j])
+
+func Sort
+  property C15
+  ensures[perm]  isperm(slice)
+  ensures[order] forall i, j :: 0 <= i && i < j && j < len(slice) ==> !(slice[j] < slice[i])
+  assigns elems(slice)
+
+func SortFunc
+  property C15
+  ensures[perm]  isperm(slice)
+  ensures[order] forall i, j :: 0 <= i && i < j && j < len(slice) ==> !less(slice[j], slice[i])
+  assigns elems(slice)
+
+func SortDesc
+  property C15
+  ensures[perm]  isperm(slice)
+  ensures[order] forall i, j :: 0 <= i && i < j && j < len(slice) ==> !(slice[i] < slice[j])
+  assigns elems(slice)
+
+func SortDescFunc
+  property C15
+  ensures[perm]  isperm(slice)
+  ensures[order] forall i, j :: 0 <= i && i < j && j < len(slice) ==> !less(slice[i], slice[j])
+  assigns elems(slice)
+
+func SortStableFunc
+  property C15
+  ensures[perm]   isperm(slice)
+  ensures[order]  forall i, j :: 0 <= i && i < j && j < len(slice) ==> !less(slice[j], slice[i])
+  ensures[stable] forall i, j :: 0 <= i && i < j && j < len(slice) && !less(slice[i], slice[j]) ==> sortperm[i] < sortperm[j]
+  assigns elems(slice)
+
+func SortStableDescFunc
+  property C15
+  ensures[perm]   isperm(slice)
+  ensures[order]  forall i, j :: 0 <= i && i < j && j < len(slice) ==> !less(slice[i], slice[j])
+  ensures[stable] forall i, j :: 0 <= i && i < j && j < len(slice) && !less(slice[j], slice[i]) ==> sortperm[i] < sortperm[j]
+  assigns elems(slice)
+
+func BinarySearch
+  property C15
+  requires forall i, j :: 0 <= i && i < j && j < len(slice) ==> !(slice[j] < slice[i])
+  ensures[range] 0 <= result && result <= len(slice)
+  ensures[below] forall k :: 0 <= k && k < result ==> slice[k] < value
+  ensures[above] forall k :: result <= k && k < len(slice) ==> !(slice[k] < value)
+
+func BinarySearchFunc
+  property C15
+  requires forall i, j :: 0 <= i && i < j && j < len(slice) ==> (less(slice[j]) ==> less(slice[i]))
+  ensures[range] 0 <= result && result <= len(slice)
+  ensures[below] forall k :: 0 <= k && k < result ==> less(slice[k])
+  ensures[above] forall k :: result <= k && k < len(slice) ==> !less(slice[k])
+
+func Shuffle
+  property C15
+  opt sortdata slice
+  ensures[perm] isperm(slice)
+  assigns elems(slice)
+
+func ShuffleRand
+  property C15
+  opt sortdata slice
+  requires rand != nil
+  ensures[perm]   isperm(slice)
+  ensures[source] sameperm(sortperm, shufperm(randstate(rand), len(slice)))
+  assigns elems(slice)
 @*/
